@@ -106,6 +106,40 @@ def gen_query(rng, w, preds):
     return params
 
 
+def gen_ambiguous_queries(rng, archs_enabled):
+    """C05, targeted: queries whose OneOf<c1, c2> is AMBIGUOUS for one archetype (`amb` contains both)
+    while ANOTHER parameter already excludes that archetype, and some other archetype (`ok`)
+    satisfies the whole query.  `archs_enabled`: [(name, [component names])].  The property rejects
+    every such query, wherever the OneOf is written; both orders are produced."""
+    out = []
+    cands = []
+    for (an, comps) in archs_enabled:
+        if len(comps) < 2:
+            continue
+        for (bn, bcomps) in archs_enabled:
+            if bn == an:
+                continue
+            for c1 in comps:
+                for c2 in comps:
+                    if c1 != c2 and c1 in bcomps and c2 not in bcomps:
+                        cands.append((an, comps, bn, bcomps, c1, c2))
+    rng.shuffle(cands)
+    for (an, comps, bn, bcomps, c1, c2) in cands[:2]:
+        one = ([], False, "O." + ".".join(rng.sample([c1, c2], 2)))
+        others = [([], False, "E." + bn), ([], False, "D." + bn)]
+        only_b = [c for c in bcomps if c not in comps]
+        if only_b:
+            k = rng.choice(only_b)
+            others.append(([], rng.random() < 0.4, "C." + k))
+            z = next((c for c in COMPS if c not in comps and c not in bcomps and c != k), None)
+            if z:
+                others.append(([], False, "O." + k + "." + z))
+        oth = rng.choice(others)
+        out.append([oth, one])
+        out.append([one, oth])
+    return out
+
+
 def fmt_query(params):
     return "|".join(f"{fmt_cfgs(c)}:{1 if m else 0}:{t}" for (c, m, t) in params)
 
@@ -136,6 +170,11 @@ def gen_cases(seed, n_worlds, kmax, queries_per_world=3):
         preds = rng.sample(PREDS, k)
         w = gen_world(rng, preds)
         qs = [gen_query(rng, w, preds) for _ in range(queries_per_world)]
+        if wi % 3 == 0:
+            # archetypes / components without any cfg: enabled under every assignment
+            plain = [(a[2], [c[2] for c in a[3] if not c[0]]) for a in w[1] if not a[0]]
+            if all(not c[0] for a in w[1] for c in a[3]):
+                qs += gen_ambiguous_queries(rng, plain)
         used = sorted({p for a in w[1] for p in a[0]} | {p for a in w[1] for c in a[3] for p in c[0]} |
                       {p for q in qs for prm in q for p in prm[0]})
         assigns = list(itertools.product([0, 1], repeat=len(used)))
@@ -304,6 +343,14 @@ def run_oracles(cases, meta, outputs):
             if dw is not None and o["query"].startswith("err noMatch"):
                 if expected_match(dw, q, rho):
                     hits.append({"property": "C05", "case": cid, "class": "false-nomatch", "what": "query rejected as matching nothing although archetypes satisfy it"})
+            if dw is not None and o["query"].startswith("ok"):
+                for (cf_, m_, t_) in q:
+                    if t_.startswith("O.") and all(rho.get(p_, False) for p_ in cf_):
+                        amb = [an_ for (an_, comps_) in dw if sum(1 for c_ in t_.split(".")[1:] if c_ in comps_) >= 2]
+                        if amb:
+                            hits.append({"property": "C05", "case": cid, "class": "ambiguous-accepted",
+                                         "what": f"the query was accepted although OneOf<{', '.join(t_.split('.')[1:])}> matches two components of archetype {amb[0]}: a OneOf matching two components of one archetype is rejected at compile time, wherever it is written in the parameter list"})
+                            break
             if dw is not None and o["query"].startswith("ok") and not expected_match(dw, q, rho):
                 hits.append({"property": "C05", "case": cid, "class": "empty-accepted", "what": "query matching no archetype was accepted"})
             if "GENERATORS-DISAGREE" in o["query"]:
